@@ -173,20 +173,36 @@ Example C18_decimal_parse_roundtrip_samples :
 Proof. vm_compute. reflexivity. Qed.
 
 (* ---- 4. clients that did not offer gzip get the identity response ---- *)
-(* true as the code reads the header (substring test), for every handler whatsoever *)
-Theorem C18_identity_when_not_offered_partial :
+(* for the RFC 7231 reading of Accept-Encoding ([offers_gzip]: comma list, coding name before ';',
+   case-insensitive, q=0 means "not acceptable", "*" covers codings not listed) and for every
+   handler whatsoever: "gzip;q=0", "notgzip", "gzipped, br", "x-gzip;q=0.0" ... get the identity
+   response *)
+Theorem C18_identity_when_not_offered :
   forall dexts cs cfgs path ae s,
-  contains ae GZIP = false -> gzip_serve dexts cs cfgs path ae s = run_plain s.
-Proof. exact identity_when_no_gzip_substring. Qed.
-Print Assumptions C18_identity_when_not_offered_partial.
+  offers_gzip ae = false -> gzip_serve dexts cs cfgs path ae s = run_plain s.
+Proof. exact identity_when_not_offered. Qed.
+Print Assumptions C18_identity_when_not_offered.
 
-(* false for the RFC 7231 reading of Accept-Encoding ([offers_gzip]): "gzip;q=0" refuses gzip *)
-Theorem C18_identity_when_not_offered_refuted :
-  exists cfgs path ae s,
-  offers_gzip ae = false /\
-  applied (gzip_serve [[]; bs ".txt"] false cfgs path ae s) = [GZIP].
-Proof. exists [bare], (bs "/x"), (bs "gzip;q=0"), [OWrite [1; 2; 3]]. exact q0_witness. Qed.
-Print Assumptions C18_identity_when_not_offered_refuted.
+Example C18_identity_when_not_offered_nonvacuous :
+  forallb (fun ae => negb (offers_gzip ae))
+    [bs "gzip;q=0"; bs "gzip;q=0, identity"; bs "gzip; q=0.0, br"; bs "br, gzip;Q=0.000"; bs "notgzip";
+     bs "gzipped, br"; bs "x-gzip;q=0"; bs "br"; bs ""] = true /\
+  forallb (fun ae => lbeq (applied (gzip_serve [[]] false [bare] (bs "/x") ae [OWrite [1; 2; 3]])) [GZIP])
+    [bs "gzip"; bs "br, gzip"; bs " gzip ;q=0.5"; bs "x-gzip"; bs "gzip;q=0, gzip"; bs "deflate, gzip;q=1.0"] = true.
+Proof. vm_compute. split; reflexivity. Qed.
+
+(* the code's own test (acceptsGzip), which is what decides *)
+Theorem C18_identity_when_not_accepted :
+  forall dexts cs cfgs path ae s,
+  accepts_gzip ae = false -> gzip_serve dexts cs cfgs path ae s = run_plain s.
+Proof. exact identity_when_not_accepted. Qed.
+Print Assumptions C18_identity_when_not_accepted.
+
+(* ... never sees gzip offered where the RFC reading does not *)
+Theorem C18_accepts_gzip_sound :
+  forall ae, accepts_gzip ae = true -> offers_gzip ae = true.
+Proof. exact accepts_offers. Qed.
+Print Assumptions C18_accepts_gzip_sound.
 
 (* ---- 5. request filters, min_length, header rewriting, liveness ---- *)
 Theorem C18_excluded_request_identity :
@@ -217,7 +233,7 @@ Print Assumptions C18_compressed_response_headers.
 Theorem C18_compresses_when_eligible :
   forall dexts cs cfgs path ae s c,
   forallb is_hdr s = false ->
-  contains ae GZIP = true -> find (req_ok dexts cs path) cfgs = Some c ->
+  accepts_gzip ae = true -> find (req_ok dexts cs path) cfgs = Some c ->
   resp_ok c (r_hdr (run_plain s)) = true ->
   applied (gzip_serve dexts cs cfgs path ae s) = [GZIP].
 Proof. exact compresses_when_eligible. Qed.
